@@ -91,7 +91,7 @@ claqgs(SuperMatrix *A, float *r, float *c,
     NCformat *Astore;
     complex   *Aval;
     int_t i, j, irow;
-    float large, small, cj;
+    float large, small, cj, big;
     extern double slamch_(char *);
     float temp;
 
@@ -108,6 +108,7 @@ claqgs(SuperMatrix *A, float *r, float *c,
     /* Initialize LARGE and SMALL. */
     small = slamch_("Safe minimum") / slamch_("Precision");
     large = 1. / small;
+    big = 1. / slamch_("Safe minimum"); /* no scale factor exceeds it */
 
     if (rowcnd >= THRESH && amax >= small && amax <= large) {
 	if (colcnd >= THRESH)
@@ -137,7 +138,15 @@ claqgs(SuperMatrix *A, float *r, float *c,
 	    for (i = Astore->colptr[j]; i < Astore->colptr[j+1]; ++i) {
 		irow = Astore->rowind[i];
 		temp = cj * r[irow];
-		cs_mult(&Aval[i], &Aval[i], temp);
+		if ( temp <= big ) {
+		    cs_mult(&Aval[i], &Aval[i], temp);
+		} else if ( cj >= r[irow] ) { /* cj * r[irow] overflows: larger factor first */
+		    cs_mult(&Aval[i], &Aval[i], cj);
+		    cs_mult(&Aval[i], &Aval[i], r[irow]);
+		} else {
+		    cs_mult(&Aval[i], &Aval[i], r[irow]);
+		    cs_mult(&Aval[i], &Aval[i], cj);
+		}
 	    }
 	}
 	*equed = BOTH;
